@@ -243,12 +243,12 @@ Section Sound.
       apply andb_true_iff in Hr; destruct Hr as [Hsz Hr]; apply andb_true_iff in Hi; destruct Hi as [Hisz Hi];
       rewrite (in_size_sub _ _ _ _ _ Hsz Hisz); cbn [andb]; apply orb_true_iff; right; apply forallb_forall; intros v Hv;
       pose proof (wf_val_arr _ _ Hx Hv) as Hwv.
-    - (* Array *) apply orb_true_iff in Hr. destruct Hr as [Hr|Hr]; [rewrite (in_size_eq0 _ _ _ Hisz Hr) in Hv; destruct Hv|].
+    - (* Array *) apply orb_true_iff in Hr. destruct Hr as [Hr|Hr]; [rewrite (in_size_hi0 _ _ _ Hisz Hr) in Hv; destruct Hv|].
       assert (Hs : sub e b) by (apply IHe; [assumption|split; assumption|assumption]).
       apply Hs; [assumption|]. apply orb_true_iff in Hi. destruct Hi as [Hi|Hi].
       + apply is_any_eq in Hi. subst. reflexivity.
       + rewrite forallb_forall in Hi. auto.
-    - (* Tuple *) apply orb_true_iff in Hr. destruct Hr as [Hr|Hr]; [rewrite (in_size_eq0 _ _ _ Hisz Hr) in Hv; destruct Hv|].
+    - (* Tuple *) apply orb_true_iff in Hr. destruct Hr as [Hr|Hr]; [rewrite (in_size_hi0 _ _ _ Hisz Hr) in Hv; destruct Hv|].
       change (walk ts vs = true) in Hi. destruct ts as [|t0 ts].
       + assert (Hs : sub e TAny) by (apply IHe; [assumption|apply good_any|assumption]). apply Hs; auto.
       + destruct (walk_in (t0 :: ts) ltac:(congruence) vs Hi v Hv) as (t & Ht & Hit).
@@ -401,7 +401,7 @@ Section Sound.
       apply andb_true_iff in Hr. destruct Hr as [Hsz Hr].
       apply andb_true_iff in Hwb. destruct Hwb as [Hwb1 Hwb2]. apply andb_true_iff in Hnb. destruct Hnb as [Hnb1 Hnb2].
       apply andb_true_iff in Hi. destruct Hi as [Hisz Hi]. rewrite (in_size_sub _ _ _ _ _ Hsz Hisz). cbn [andb].
-      apply orb_true_iff in Hr. destruct Hr as [Hr|Hr]; [rewrite (in_size_eq0 _ _ _ Hisz Hr); reflexivity|].
+      apply orb_true_iff in Hr. destruct Hr as [Hr|Hr]; [rewrite (in_size_hi0 _ _ _ Hisz Hr); reflexivity|].
       apply andb_true_iff in Hr. destruct Hr as [Hk Hv].
       rewrite forallb_forall in Hi |- *. intros [k0 x0] Hin. specialize (Hi _ Hin). cbn [fst snd] in *.
       apply andb_true_iff in Hi. destruct Hi as [Hik Hix]. destruct (wf_val_hash _ _ _ Hx Hin) as [Hwk0 Hwx0].
@@ -471,13 +471,13 @@ Section Sound.
       cbn in Hr, Hwb, Hnb; cbn [Lattice.inst] in *;
       apply andb_true_iff in Hr; destruct Hr as [Hsz Hr]; apply andb_true_iff in Hi; destruct Hi as [Hisz Hi];
       rewrite (in_size_sub _ _ _ _ _ Hsz Hisz); cbn [andb]; change (walk ts vs = true).
-    - (* Array *) apply orb_true_iff in Hr. destruct Hr as [Hr|Hr]; [rewrite (in_size_eq0 _ _ _ Hisz Hr); apply walk_nil_r|].
+    - (* Array *) apply orb_true_iff in Hr. destruct Hr as [Hr|Hr]; [rewrite (in_size_hi0 _ _ _ Hisz Hr); apply walk_nil_r|].
       apply walk_all. intros t v Ht Hv. rewrite forallb_forall in Hr.
       apply (Hsub t b Ht (conj Hwb Hnb) (Hr t Ht)); [apply (wf_val_arr _ _ Hx Hv)|].
       apply orb_true_iff in Hi. destruct Hi as [Hi|Hi]; [apply is_any_eq in Hi; subst; reflexivity|].
       rewrite forallb_forall in Hi. auto.
     - (* Tuple *) change (walk ts0 vs = true) in Hi. destruct ts as [|t0 ts]; [reflexivity|].
-      apply orb_true_iff in Hr. destruct Hr as [Hr|Hr]; [rewrite (in_size_eq0 _ _ _ Hisz Hr); apply walk_nil_r|].
+      apply orb_true_iff in Hr. destruct Hr as [Hr|Hr]; [rewrite (in_size_hi0 _ _ _ Hisz Hr); apply walk_nil_r|].
       destruct ts0 as [|o0 os].
       + (* a tuple type without slots: every slot of the receiver accepts Any *)
         apply walk_all. intros t v Ht Hv. rewrite forallb_forall in Hr.
